@@ -96,6 +96,7 @@ static void op_ci_decint(FILE *out, const char *id, char **a, int n) { ci_dec_co
 #include "ops_hash.h"
 #include "ops_file.h"
 #include "ops_write.h"
+#include "ops_io.h"
 
 /* ------------------------------------------------------------------ dispatch */
 
@@ -118,6 +119,8 @@ static struct { const char *name; opfn fn; int forked; } OPS[] = {
     {"WRITE", op_write, 1},
     {"COPY", op_copy, 1},
     {"MATCH", op_match, 1},
+    {"IOSEQ", op_ioseq, 1},
+    {"IOFAULT", op_iofault, 1},
     {NULL, NULL, 0}
 };
 
